@@ -1,13 +1,16 @@
 #!/bin/bash
-# usage: tools_seedtest.sh <patch.diff> <Cxx> [tier]  -- applies a seeded change to /repo, runs the check, reverts.
+# usage: tools_seedtest.sh <patch.diff (absolute)> <Cxx> [tier]
+# Harness development tool: runs a check against a scratch worktree of /repo that carries a seeded
+# change (VERIF_REPO), with evidence and replays redirected to a scratch directory, so that it can run
+# beside anything else. (Applying the patch to /repo itself - git -C /repo apply <file>; ./check ...;
+# git -C /repo checkout -- . - gives the same result.)
 set -u
 P=$1; ID=$2; TIER=${3:-quick}
-cd /repo || exit 9
-if ! git diff --quiet; then echo "repo dirty, abort"; exit 9; fi
-git apply "$P" || { echo "patch does not apply"; exit 9; }
-cd /verif && ./check "$ID" "$TIER" > /tmp/seedtest.out 2>&1; RC=$?
-cd /repo && git checkout -- . 
-echo "rc=$RC"; grep -aE "VIOLATION|INCONCLUSIVE|property=|rapid\] (failed|panic)|data race:" /tmp/seedtest.out | cut -c1-330 | head -6
-# evidence file was rewritten by this run: restore the committed one
-cd /verif && git checkout -- evidence 2>/dev/null; rm -rf /verif/replays
+WT=$(mktemp -d /tmp/seedwt.XXXXXX); OUT=$(mktemp -d /tmp/seedout.XXXXXX)
+rmdir $WT
+git -C /repo worktree add --detach $WT HEAD >/dev/null 2>&1 || { echo "worktree failed"; exit 9; }
+( cd $WT && git apply "$P" ) || { echo "patch does not apply"; git -C /repo worktree remove --force $WT; exit 9; }
+cd /verif && VERIF_REPO=$WT VERIF_EVIDENCE_DIR=$OUT/evidence VERIF_REPLAY_DIR=$OUT/replays ./check "$ID" "$TIER" > $OUT/out.txt 2>&1; RC=$?
+echo "rc=$RC"; grep -aE "VIOLATION|INCONCLUSIVE|property=|rapid\] (failed|panic)|data race:" $OUT/out.txt | cut -c1-330 | head -6
+git -C /repo worktree remove --force $WT; rm -rf $OUT
 exit 0
